@@ -270,7 +270,7 @@ class Check:
         self.violations.append(Violation(name, cex['key'], cex['what'], cex['replay']))
         return 'fail', None
 
-    def prove_none(self, name, assumptions, labelled_bad, on_cex, block=None):
+    def prove_none(self, name, assumptions, labelled_bad, on_cex, block=None, case_split=None):
         """obligation: none of the labelled bad conditions is satisfiable under the assumptions.  The labels of the
         conditions that hold in a counterexample model are passed to on_cex as m.fired (and reported)."""
         exprs = [e for _, e in labelled_bad]
@@ -302,16 +302,41 @@ class Check:
                     return True
                 if r == 'unknown':
                     undecided, hit = 0, None
-                    for lab, e in labelled_bad:
+
+                    def decide_one(e):
                         r1, m1 = self.solve(list(assumptions) + extra + [e])
-                        if r1 == 'unknown':
+                        if r1 == 'unknown' and case_split:
+                            # hard condition: decide it case by case over an exhaustive split given by the check
+                            rx, _ = self.solve(list(assumptions) + [z3.Not(z3.Or(*case_split))])
+                            if rx == 'unsat':
+                                r1 = 'unsat'
+                                for cs in case_split:
+                                    r2, m2 = self.solve(list(assumptions) + extra + [cs, e], timeout_ms=2 * self.query_timeout_ms)
+                                    if r2 == 'sat':
+                                        return 'sat', m2
+                                    if r2 == 'unknown':
+                                        return 'unknown', None
+                        elif r1 == 'unknown':
                             # the few hard conditions get a longer cap before they count as undecided
                             r1, m1 = self.solve(list(assumptions) + extra + [e], timeout_ms=6 * self.query_timeout_ms)
+                        return r1, m1
+                    # bisection: most conditions (panic sites, per-path assertions) fall in bulk
+                    work = [exprs]
+                    while work and hit is None:
+                        chunk = work.pop()
+                        if len(chunk) == 1:
+                            r1, m1 = decide_one(chunk[0])
+                        else:
+                            r1, m1 = self.solve(list(assumptions) + extra + [z3.Or(*chunk)], timeout_ms=min(20000, self.query_timeout_ms))
                         if r1 == 'sat':
                             hit = m1
-                            break
-                        if r1 == 'unknown':
-                            undecided += 1
+                        elif r1 == 'unknown':
+                            if len(chunk) == 1:
+                                undecided += 1
+                            else:
+                                h = len(chunk) // 2
+                                work.append(chunk[h:])
+                                work.append(chunk[:h])
                     if hit is None:
                         if undecided:
                             self.inconclusive.append('TIMEOUT: %s: %d of %d bad conditions undecided' % (name, undecided, len(exprs)))
